@@ -85,7 +85,11 @@ type Opts struct {
 	MaxPaths  int
 	// Inline decides whether a module callee with a body is expanded (E7).
 	Inline    func(callee *ssa.Function) bool
-	Callbacks bool
+	// ParamRoles: canonical names for parameters by type (typeName -> role).  A parameter whose
+	// type has a role gets that name wherever it stands in the signature; a parameter of a
+	// module-local struct type is a literal of role-named components (a parameter object).
+	ParamRoles map[string]string
+	Callbacks  bool
 	// WalkRounds: number of symbolic invocations of a collections Walk callback (default 1);
 	// the element of round r > 0 is cbargN(call, r), like position r of a cursor
 	WalkRounds int
@@ -235,11 +239,43 @@ func Enumerate(w *World, fn *ssa.Function, o Opts, visit func(*Path) bool) (npat
 			name = o.ParamNames[i]
 		}
 		fr.env[p] = &Term{Op: "param", Name: name, Typ: p.Type()}
+		isRecv := i == 0 && fn.Signature.Recv() != nil
+		if o.ParamRoles == nil || isRecv {
+			continue
+		}
+		if role, ok := o.ParamRoles[typeName(p.Type())]; ok {
+			fr.env[p] = &Term{Op: "param", Name: role, Typ: p.Type()}
+			continue
+		}
+		if st, ok := localStruct(p.Type()); ok {
+			var lit *Term = &Term{Op: "zero", Typ: p.Type()}
+			for k := 0; k < st.NumFields(); k++ {
+				f := st.Field(k)
+				var ft *Term
+				if role, ok := o.ParamRoles[typeName(f.Type())]; ok {
+					ft = &Term{Op: "param", Name: role, Typ: f.Type()}
+				} else {
+					ft = &Term{Op: "field", Name: f.Name(), Args: []*Term{{Op: "param", Name: name, Typ: p.Type()}}, Typ: f.Type()}
+				}
+				lit = update(lit, f.Name(), ft)
+			}
+			fr.env[p] = lit
+		}
 	}
 	for _, fv := range fn.FreeVars {
 		fr.env[fv] = &Term{Op: "free", Name: fv.Name(), Typ: fv.Type()}
 	}
 	fr.ret = func(res []*Term) {
+		// a single result of an unexported module struct type is a tuple with named components
+		if len(res) == 1 && res[0] != nil && fn.Signature.Results().Len() == 1 {
+			if st, ok := carrierStruct(fn.Signature.Results().At(0).Type()); ok {
+				var flat []*Term
+				for k := 0; k < st.NumFields(); k++ {
+					flat = append(flat, project(res[0], st.Field(k).Name(), st.Field(k).Type()))
+				}
+				res = flat
+			}
+		}
 		p := &Path{Ret: res}
 		for _, r := range res {
 			if r.Op == "addr" {
@@ -1512,6 +1548,29 @@ func (e *engine) afterOpaque(fr *frame, ev Event, args []*Term, cont func(*Term)
 		if ci, ok := ev.Instr.(ssa.CallInstruction); ok && ci != nil {
 			callee = ci.Common().StaticCallee()
 		}
+		// an in-place sort permutes the elements of its slice argument: afterwards the slice
+		// holds sorted(<content before>), whatever had been written into it
+		if inPlaceSorts[ev.Call.Name] && len(args) > 0 {
+			s := args[0]
+			for ((s.Op == "iface" || s.Op == "convert") && len(s.Args) == 1) || s.Op == "filled" {
+				s = s.Args[0]
+			}
+			var root *Term
+			switch {
+			case s.Op == "slice" && s.Plc != nil && s.Off == nil:
+				root, _ = rootOf(s.Plc)
+			case s.Op == "make" || s.Op == "param" || s.Op == "call" || s.Op == "extract" || s.Op == "field":
+				root = &Term{Op: "deref", Args: []*Term{s}}
+			}
+			if root != nil {
+				key := rootKey(root)
+				cur, ok := e.mem[key]
+				if !ok {
+					cur = root
+				}
+				e.setMem(key, &Term{Op: "opaque", Name: "sorted", Args: []*Term{cur, ev.Call}, Typ: cur.Typ})
+			}
+		}
 		for i, a := range args {
 			if a.Op == "addr" && a.Args[0].Op == "alloc" {
 				// a module callee whose body is known and which provably never writes through this
@@ -1760,6 +1819,10 @@ func orNil(t *Term) *Term {
 // ---------------------------------------------------------------------------
 // purity table: results of these callees are functions of their arguments
 // (no instance id), and they do not write through pointer arguments.
+
+// inPlaceSorts: standard-library functions that reorder the elements of their first argument.
+var inPlaceSorts = map[string]bool{"sort.Slice": true, "sort.SliceStable": true, "slices.Sort": true, "slices.SortFunc": true,
+	"slices.SortStableFunc": true, "sort.Strings": true, "sort.Ints": true}
 
 var purePkgPrefixes = []string{
 	"strconv.", "encoding/hex.", "(encoding/binary.", "encoding/binary.", "fmt.Sprintf", "fmt.Errorf", "fmt.Sprint",
@@ -2014,4 +2077,24 @@ func (e *engine) collIterator(name string, args []*Term, resT types.Type) (*Term
 		return &Term{Op: "tuple", Args: []*Term{kv, at("iterkverr", resAt(1))}}, true
 	}
 	return nil, false
+}
+
+// localStruct: t is a named struct type declared in the module.
+func localStruct(t types.Type) (*types.Struct, bool) {
+	n, ok := t.(*types.Named)
+	if !ok || n.Obj().Pkg() == nil || !strings.HasPrefix(n.Obj().Pkg().Path(), modPath) {
+		return nil, false
+	}
+	st, ok := n.Underlying().(*types.Struct)
+	return st, ok
+}
+
+// carrierStruct: an unexported module struct type - used only to carry several values in
+// or out of a private function (a result or parameter object), never a domain record.
+func carrierStruct(t types.Type) (*types.Struct, bool) {
+	n, ok := t.(*types.Named)
+	if !ok || n.Obj().Exported() {
+		return nil, false
+	}
+	return localStruct(t)
 }
